@@ -522,17 +522,18 @@ class SThread:
     def start(self) -> None:
         s = _active
         self._started = True
+        mode = SThread.policy(self)
+        if mode == "inline" or (s is None and mode == "daemon-actor"):
+            self.ident = next(self._ids) + 100000
+            self.run()
+            self._inline_done = True
+            return
         if s is None:
             self._real = _real_threading.Thread(target=self.run, name=self.name, daemon=self.daemon)
             self._real.start()
             self.ident = self._real.ident
             return
-        mode = SThread.policy(self)
         self.ident = next(self._ids) + 100000
-        if mode == "inline":
-            self.run()
-            self._inline_done = True
-            return
         parent = current_actor()
         pname = parent.name if parent else "main"
         tname = getattr(self._target, "__name__", "thread")
